@@ -139,6 +139,7 @@ type Exec struct {
 	// incarnation re-allocated by the pod-IP sync of a stale update event); LastKey: last owner key seen per IP
 	MixedKeys map[string]bool
 	LastKey   map[string]string
+	LastTaken [][2]int        // scheduler decisions (choice, number of choices) of the last episode executed
 	dropped   map[string]bool // IPs that some reload (or restart onto another configuration) removed from the configuration
 	// bookkeeping for oracles
 	LastResults []*OpResult
@@ -959,6 +960,7 @@ func (x *Exec) episode(i int, op Op) *vcore.Failure {
 	s.Run(names, fns)
 	w.sched = nil
 	x.InEpisode = false
+	x.LastTaken = s.Taken
 	x.count("op:episode")
 	x.count(fmt.Sprintf("episode_tasks:%d", len(fns)))
 	if s.Overlap > 0 {
